@@ -166,6 +166,21 @@ PROPS = {
             "and/all run their parts CONCURRENTLY and finish when all have: decided only as 'each part is hosted by its own task' (unit Q, reported under C01/C06 too)",
         ],
     },
+    "C05": {
+        "kani": [],
+        "verus": ["N", "Q", "X"],
+        "trusted_base": ["Verus 0.2026.09.13 + Z3 (unit N: Stream::poll_next for Command against an action log; unit Q: CommandWaker::{wake, wake_by_ref}, TaskWaker::{wake, wake_by_ref}; unit X: ShellStream::poll_next)"],
+        "assumptions": [
+            "unit N: AtomicWaker::register stores the waker and a later wake() wakes it (futures); run_until_settled / is_done / try_recv are assumed calls that log themselves (what they do is unit Q's subject)",
+            "unit Q: futures AtomicWaker::wake wakes the waker the host registered; the ready queue is a FIFO channel; flags are read sequentially",
+            "unit X: futures-mpsc receiver / Fuse<StreamFuture> as assumed contracts",
+        ],
+        "not_decided": [
+            "the property itself is RELATIONAL (the same program under direct inspection, nesting, Core, the bridge yields the same outputs at the same points): not a per-call contract and not decided",
+            "what IS decided is its 'in particular' sentence, layer by layer: a woken command task is queued once and the command's host is woken too (CommandWaker), the hosting executor task is re-queued (TaskWaker), the host's waker is registered first thing in every poll and before any task runs (poll_next), a stream request stores its consumer's waker before the request can be answered; composing these over arbitrary nesting depth is an induction over programs, not a contract",
+            "dropping a request closes its channel, which wakes the awaiting task: futures-mpsc behaviour (assumed)",
+        ],
+    },
     "C14": {
         "kani": [],
         "verus": ["H"],
